@@ -65,6 +65,26 @@ def run(ctx):
     samples = []
     E = exprs(rng, 20 if ctx.tier == "quick" else 800)
     per_code = {}
+    # highlighting Off but a navigation node given: no dots 7-8 may appear (only BrailleNavHighlight decides)
+    n_off = 0
+    for code in CELL_CODES:
+        pre0 = [{"op": "session"}, {"op": "rules_dir", "dir": core.rules_dir()}, {"op": "set_pref", "name": "BrailleCode", "value": code}, {"op": "set_pref", "name": "BrailleNavHighlight", "value": "Off"}]
+        eight0 = {chr(c) for c in status.get(CODE_IDX.get(code, -1), {}).get("eight_dot_literals", [])}
+        for t in E[:12]:
+            n = t.copy()
+            for k, x in enumerate(n.walk()):
+                x.attrs["id"] = "n%d" % k
+            xml = mml.to_xml(n)
+            ids = ["n%d" % k for k in range(len(list(n.walk())))]
+            reqs0 = [{"op": "set_mathml", "xml": xml}] + [{"op": "braille", "id": i} for i in rng.sample(ids, min(4, len(ids)))]
+            rep0 = im.run(pre0 + reqs0, prelude=pre0)[len(pre0):]
+            for q, r in zip(reqs0[1:], rep0[1:]):
+                n_off += 1
+                if r.get("r") == "ok":
+                    hl = [ch for ch in r["v"] if 0x28C0 <= ord(ch) <= 0x28FF and ch not in eight0]
+                    if hl:
+                        oracle_fail.append({"why": "dots 7-8 set although BrailleNavHighlight is Off", "code": code, "chars": "".join(sorted(set(hl))), "input": xml, "id": q["id"], "braille": r["v"],
+                                            "lines": pre0[1:] + [reqs0[0], q]})
     for code in CELL_CODES + TEXT_CODES:
         pre = [{"op": "session"}, {"op": "rules_dir", "dir": core.rules_dir()}, {"op": "set_pref", "name": "BrailleCode", "value": code},
                {"op": "set_pref", "name": "BrailleNavHighlight", "value": rng.choice(["Off", "EndPoints", "All"])}]
@@ -120,7 +140,7 @@ def run(ctx):
         "evaluations": evals, "distinct_nontrivial": len(nontriv),
         "rule": "every (quick: 500 sampled) key of each code's unicode.yaml/unicode-full.yaml as <mo> between two identifiers, plus typeface/chemistry/text/menclose/corpus/generated expressions, "
                 "x 5 cell codes and 2 text codes, with a random highlight style and no navigation node; non-trivial = the rules produced indicator letters (raw string not all cells)",
-        "per_code": per_code, "model_status": [{k: v for k, v in s.items()} for s in status.values()],
+        "per_code": per_code, "highlight_off_with_node_calls": n_off, "model_status": [{k: v for k, v in s.items()} for s in status.values()],
         "impl_vs_oracle_failures": [{k: v for k, v in f.items() if k != "lines"} for f in oracle_fail[:8]], "n_oracle_failures": len(oracle_fail),
         "samples": samples,
     })
